@@ -233,7 +233,13 @@ impl Bundle {
         for c in self.canonicals.iter() {
             highest_block_number = cmp::max(highest_block_number, c.block_number);
         }
-        highest_block_number + 1
+        match highest_block_number.checked_add(1) {
+            Some(next) => next,
+            // the highest number is taken: use the lowest free number above the payload's
+            None => (2..)
+                .find(|n| !self.canonicals.iter().any(|c| c.block_number == *n))
+                .unwrap_or(u64::MAX),
+        }
     }
 
     /// Automatically assign a block number and add canonical block to bundle
